@@ -27,6 +27,9 @@ REAL_ENVS = [dict(media=[[13., 5e-3, 0.]]), dict(media=[[80., 4., 0.]]), dict(me
              dict(media=[[13., 5e-3, 0., 3.0], [4., 1e-3, 0.]], boundary='circular', radials=[16, 1e-3])]
 
 
+RULE = RULE + ' Also two arrays of exactly vertical wires standing at different places (phased monopoles over ground, phased dipoles in free space).'
+
+
 def bounds(tier, seed):
     return dict(max_wires=2 if tier == 'quick' else 3, variant=geom.variant(seed), grid='2.5 x 5 degrees')
 
